@@ -16,6 +16,7 @@ var (
 	flagWorkers  = flag.Int("mc.workers", 0, "worker processes (0 = NumCPU)")
 	flagVerifDir = flag.String("mc.dir", "/verif", "verif directory")
 	flagScenario = flag.String("mc.scenario", "", "only scenarios whose name contains this")
+	flagKillDir  = flag.String("mc.killdir", "", "store directory of the kill child")
 	flagBound    = flag.Int("mc.bound", -1, "override the deviation bound (explore1)")
 	flagNoPrune  = flag.Bool("mc.noprune", false, "disable pruning (explore1)")
 )
@@ -146,4 +147,12 @@ func TestExploreOne(t *testing.T) {
 			fmt.Printf("  %s: %s\n", f.V.Key(), f.V.Msg)
 		}
 	}
+}
+
+// TestKillChild is the child process of the C14 kill enumeration.
+func TestKillChild(t *testing.T) {
+	if *flagRole != "killchild" {
+		t.Skip("not a kill child")
+	}
+	killChildMain()
 }
